@@ -167,10 +167,13 @@ pub fn run_session<R>(chain: &SimChain, node: &SimNode, cfg: &TowerCfg, f: impl 
 
         let (shutdown_trigger, shutdown_signal) = triggered::trigger();
         // The ordering matters (main.rs): gatekeeper first, then watcher, then responder.
-        let listener = &(gatekeeper, &(watcher.clone(), responder));
+        // (main.rs) the tip tracker goes last: it records a block once everybody else has processed it
+        let processed_tip = Arc::new(Mutex::new(tip.header.block_hash()));
+        let tip_tracker = teos::chain_monitor::TipTracker(processed_tip.clone());
+        let listener = &(gatekeeper, &(watcher.clone(), &(responder, &tip_tracker)));
         let cache = &mut UnboundedCache::new();
         let spv_client = SpvClient::new(tip, poller, cache, listener);
-        let mut chain_monitor = block_on(ChainMonitor::new(spv_client, tip, dbm, 0, shutdown_signal, bitcoind_reachable.clone()));
+        let mut chain_monitor = block_on(ChainMonitor::new(spv_client, tip, dbm, 0, shutdown_signal, bitcoind_reachable.clone())).track_processed_tip(processed_tip);
         let first_poll_log_idx = chain.log.len();
         chain.armed.store(true, std::sync::atomic::Ordering::SeqCst);
         block_on(chain_monitor.poll_best_tip());
